@@ -386,6 +386,26 @@ impl<P: Instrumented, A: Audit<P>> StepObserve<P> for Obs<P, A> {
 pub enum EvalKind {
     Sequential,
     Parallel,
+    /// sequential evaluation by an evaluator that, whenever it is handed a non-empty slice, first evaluates the first
+    /// solution once more as a probe of its own and adds that evaluation to the counter itself
+    Probing,
+}
+
+/// See `EvalKind::Probing`.
+pub struct ProbingEval<P>(std::marker::PhantomData<fn() -> P>);
+impl<P: Instrumented> mahf::problems::Evaluate for ProbingEval<P> {
+    type Problem = P;
+    fn evaluate(&mut self, problem: &P, state: &mut State<P>, individuals: &mut [mahf::Individual<P>]) {
+        if let Some(first) = individuals.first() {
+            let _ = problem.objective(first.solution());
+            if let Ok(mut e) = state.try_borrow_value_mut::<mahf::state::common::Evaluations>() {
+                *e += 1;
+            }
+        }
+        for i in individuals {
+            i.evaluate_with(|s| problem.objective(s));
+        }
+    }
 }
 
 /// Runs `cfg` with a seeded RNG, the chosen evaluator and the audit attached as step observer.
@@ -400,6 +420,7 @@ where
             match eval {
                 EvalKind::Sequential => state.insert_evaluator(Sequential::<P>::new()),
                 EvalKind::Parallel => state.insert_evaluator(Parallel::<P>::new()),
+                EvalKind::Probing => state.insert_evaluator(ProbingEval::<P>(std::marker::PhantomData)),
             }
             state.insert(StepObserver::<P>(Box::new(Obs { audit, names: HashMap::new(), stack: Vec::new(), main_body: None, _p: std::marker::PhantomData })));
             Ok(())
@@ -469,6 +490,7 @@ where
             match eval {
                 EvalKind::Sequential => state.insert_evaluator(Sequential::<P>::new()),
                 EvalKind::Parallel => state.insert_evaluator(Parallel::<P>::new()),
+                EvalKind::Probing => state.insert_evaluator(ProbingEval::<P>(std::marker::PhantomData)),
             }
             Ok(())
         })
